@@ -17,6 +17,9 @@ EXPLANATION = (
     'reader inverts iff the stored value is negative, and the compressor receives the unencoded value. C19.4: both '
     'converters call the resolver before the output file is opened (dominance), so a rejected setting leaves no '
     'output.')
+EXPLANATION += (
+    ' ADDED: C19.3 decides the rate encoding by cases (rate < 1 -> -int(1/rate), else int(rate)) whatever its spelling. C19.5: the fresh header sizes the data section with the blockshape component of each axis (rule of C03.4), which matters exactly for the accepted non-square settings.'
+)
 ASSUMPTIONS = ['assert statements are active (python is not run with -O)',
                'the accepted settings then read back faithfully to the extent C01-C03 decide']
 NOT_DECIDED = ('The completeness half ("every valid combination is accepted") beyond the fact that the checks of C19.1 are '
